@@ -691,7 +691,7 @@ Definition opt_defined {A} (o : option (option A)) : bool :=
 Definition opt_value (o : option (option Z)) : Z :=
   match o with Some (Some v) => v | _ => 0 end.
 
-(* FilesInfo._write_times for LAST_WRITE_TIME, as repaired (size uses len(files)) *)
+(* FilesInfo._write_times, as repaired (size uses len(files)) *)
 Definition write_times (propid : Z) (sel : fileent -> option (option Z)) (files : list fileent) : res bytes :=
   let defined := map (fun f => opt_defined (sel f)) files in
   let ndef := count_true defined in
@@ -699,6 +699,14 @@ Definition write_times (propid : Z) (sel : fileent -> option (option Z)) (files 
   do sz <- wr_number size;
   do vals <- wr_list (fun f => if opt_defined (sel f) then wr_fixed 8 (opt_value (sel f)) else Ok []) files;
   Ok ([propid] ++ sz ++ wr_boolean defined true ++ [0] ++ vals).
+
+(* FilesInfo.write: `if any(f.get(name) is not None for f in self.files): self._write_times(...)` --
+   CREATION_TIME and LAST_ACCESS_TIME are written exactly when some entry has a defined value
+   (entries py7zr creates itself never have one; entries read from an archive keep theirs) *)
+Definition has_time (sel : fileent -> option (option Z)) (files : list fileent) : bool :=
+  any_true (map (fun f => opt_defined (sel f)) files).
+Definition write_times_opt (propid : Z) (sel : fileent -> option (option Z)) (files : list fileent) : res bytes :=
+  if has_time sel files then write_times propid sel files else Ok [].
 
 Definition write_attributes (files : list fileent) : res bytes :=
   let defined := map (fun f => opt_defined (e_attr f)) files in
@@ -733,9 +741,11 @@ Definition write_files (pos : Z) (files : list fileent) (emptyfiles : list bool)
   let padlen := if (0 <? padlen0) && (padlen0 <=? 2) then padlen0 + 4 else padlen0 in
   let pad := if 2 <? padlen then [25; padlen - 2] ++ repeatZ 0 (Z.to_nat (padlen - 2)) else [] in
   do nm <- write_names files;
+  do ct <- write_times_opt 18 e_ctime files;
+  do lat <- write_times_opt 19 e_atime files;
   do tm <- write_times 20 e_mtime files;
   do at_ <- write_attributes files;
-  Ok ([5] ++ n ++ a ++ pad ++ nm ++ tm ++ at_ ++ [0]).
+  Ok ([5] ++ n ++ a ++ pad ++ nm ++ ct ++ lat ++ tm ++ at_ ++ [0]).
 
 (* Header.write(encoded=False); pos = position of the HEADER byte in the file *)
 Definition write_header (enable_digests : bool) (pos : Z) (h : header) : res bytes :=
